@@ -1,6 +1,7 @@
 //! C15 — I/O failures surface as errors, never as success or a crash (fail-stop fault enumeration).
 
-use crate::engine::{catch, run_indexed, sample, CaseResult, Ctx, Fail, Meta, PanicInfo};
+use crate::engine::{catch, guarded, run_indexed, run_proptest, sample, CaseResult, Ctx, Fail, Meta, PanicInfo, PtCfg};
+use proptest::prelude::*;
 use crate::model::layout::{self, LGen};
 use crate::sio::{OpRec, Sched, Stream};
 use crate::spec::codec;
@@ -412,13 +413,131 @@ pub fn instances(ctx: &Ctx) -> Vec<Inst> {
     out
 }
 
+
+// ---- the source stream ends early ------------------------------------------------------------------
+
+/// An archive whose backing stream ends inside the tile data (a download cut short, a file still being
+/// copied): header and directories arrive completely, some tile contents do not.
+#[derive(Clone, Debug, Serialize, Deserialize)]
+pub struct EndsEarly {
+    pub lay: Layout,
+    /// length of one big content put into the pool (0: leave the pool alone)
+    pub big: u32,
+    /// which tile the stream ends in, and where inside it
+    pub tile: u16,
+    pub at: u16,
+    pub asyncio: bool,
+    /// short-transfer schedule of the source (empty: every read is served in full)
+    pub caps: Vec<u32>,
+}
+
+fn check_ends_early(c: &EndsEarly) -> CaseResult {
+    let mut lay = c.lay.clone();
+    if c.big > 0 && !lay.pool.is_empty() {
+        lay.pool[0] = crate::model::content::ContentSpec { kind: 0, len: c.big, seed: 91 };
+        if lay.data_mode % 4 == 2 {
+            lay.data_mode = 0;
+        }
+        // make sure some entry uses it
+        if let Some(e) = lay.entries.first_mut() {
+            e.sel = 0;
+        }
+    }
+    let b = writer::build(&lay);
+    if b.expected.is_empty() {
+        return Ok(Meta::new(false).label(true, "no-tiles"));
+    }
+    let ids: Vec<u64> = b.expected.keys().copied().collect();
+    let victim = ids[usize::from(c.tile) * ids.len() >> 16];
+    let (voff, vlen) = b.expected[&victim];
+    // the stream ends strictly inside the victim's bytes (or right at their start)
+    let t = voff + (u64::from(c.at) * u64::from(vlen) >> 16);
+    let cut = b.bytes[..t as usize].to_vec();
+    let sched = Sched { caps: c.caps.clone(), cycle: true, ..Sched::none() };
+    let complete = |id: &u64| {
+        let (o, l) = b.expected[id];
+        o + u64::from(l) <= t
+    };
+    let probe: Vec<u64> = {
+        let mut v: Vec<u64> = ids.iter().step_by(ids.len() / 40 + 1).copied().collect();
+        v.extend([victim, victim]);
+        v
+    };
+    let kind = if c.asyncio { "async" } else { "sync" };
+    let any_cut = ids.iter().any(|i| !complete(i));
+    type Got = (Vec<std::io::Result<Option<Vec<u8>>>>, std::io::Result<()>);
+    let res: std::io::Result<Got> = if c.asyncio {
+        guarded("open+get_tile_by_id_async+to_async_writer", || -> std::io::Result<Got> {
+            let mut pm = block_on(PMTiles::from_async_reader(Stream::reader(cut.clone(), sched.clone())))?;
+            let rs = probe.iter().map(|id| block_on(pm.get_tile_by_id_async(*id))).collect();
+            let mut out = futures::io::Cursor::new(Vec::new());
+            let w = block_on(pm.to_async_writer(&mut out));
+            Ok((rs, w))
+        })?
+    } else {
+        guarded("open+get_tile_by_id+to_writer", || -> std::io::Result<Got> {
+            let mut pm = PMTiles::from_reader(Stream::reader(cut.clone(), sched.clone()))?;
+            let rs = probe.iter().map(|id| pm.get_tile_by_id(*id)).collect();
+            let mut out = std::io::Cursor::new(Vec::new());
+            let w = pm.to_writer(&mut out);
+            Ok((rs, w))
+        })?
+    };
+    let opened = res.is_ok();
+    let mut cut_lookups = 0;
+    if let Ok((rs, w)) = res {
+        for (id, r) in probe.iter().zip(rs) {
+            let (o, l) = b.expected[id];
+            let want = &b.bytes[o as usize..(o + u64::from(l)) as usize];
+            let whole = complete(id);
+            if !whole {
+                cut_lookups += 1;
+            }
+            match r {
+                Err(_) => {}
+                Ok(None) => fail!(format!("C15/ok-after-stream-end/get_tile/{kind}/reported-absent"), "tile {id} (bytes {o}..+{l}) looked up on a stream that ends at {t}: Ok(None)"),
+                Ok(Some(g)) => {
+                    ensure!(whole, format!("C15/ok-after-stream-end/get_tile/{kind}"), "tile {id} needs bytes {o}..+{l} but the stream ends at {t}: Ok with {} bytes", g.len());
+                    ensure!(g == want, format!("C15/ok-after-stream-end/get_tile/{kind}/wrong-bytes"), "tile {id} (completely available) differs: {} bytes for {l}", g.len());
+                }
+            }
+        }
+        if any_cut {
+            ensure!(w.is_err(), format!("C15/ok-after-stream-end/to_writer/{kind}"), "re-writing an archive whose source ends at {t} (tile {victim} needs {voff}..+{vlen}) returned Ok");
+        }
+    }
+    Ok(Meta::new(opened && cut_lookups > 0)
+        .label(opened, "source-ends-early/opened")
+        .label(!opened, "source-ends-early/open-refused")
+        .label(vlen > 65_536, "source-ends-early/inside-tile>64KiB")
+        .label(vlen > 1 << 20, "source-ends-early/inside-tile>1MiB")
+        .label(!c.caps.is_empty(), "source-ends-early/short-reads")
+        .label(c.asyncio, "async")
+        .label(!c.asyncio, "sync"))
+}
+
+fn ends_early_strategy(max_big: u32) -> impl Strategy<Value = EndsEarly> {
+    (
+        layout::layout(LGen { max_entries: 60, big_runs: false }),
+        prop_oneof![3 => Just(0u32), 2 => 60_000u32..140_000, 1 => 140_000u32..=max_big],
+        any::<u16>(),
+        prop_oneof![1 => Just(0u16), 1 => Just(u16::MAX), 4 => any::<u16>()],
+        any::<bool>(),
+        prop_oneof![2 => Just(vec![]), 1 => proptest::collection::vec(prop_oneof![1u32..50, 50u32..70_000], 1..4)],
+    )
+        .prop_map(|(lay, big, tile, at, asyncio, caps)| EndsEarly { lay, big, tile, at, asyncio, caps })
+}
+
 pub fn run(ctx: &Ctx) {
     ctx.rec.set_rule(
         "fail-stop fault enumeration: for every scenario {Header read/write, Directory read/write, util::read_directories, util::write_directories with and without spill, \
          PMTiles::from_reader(_partially), get_tile_by_id, PMTiles::to_writer from in-memory and reader-backed sources, to_writer while the *source* reader fails} x 4 internal \
          compressions x sync/async x sampled foreign-layout inputs (root-only and with leaves), the fault-free run is recorded (N stream operations) and for EVERY k < N the \
          run in which operations k, k+1, ... fail is executed; the call must return Err. Carve-out: Ok is tolerated only if every fault-free operation from k on transferred \
-         zero bytes at end of stream. Non-trivial: 0 < k < N-1. Cases (instance, k) are distinct by construction and counted.",
+         zero bytes at end of stream. Non-trivial: 0 < k < N-1. Cases (instance, k) are distinct by construction and counted. \
+         Further passes: (2) a fixed-size sink of every capacity below the needed size (uncompressed write scenarios); (3) generated archives whose source stream *ends* \
+         inside a generated tile (tiles up to several hundred KiB / MiB, optional short-read schedule, sync and async): a lookup of a tile whose bytes are not all there \
+         must be Err (never Ok with fewer bytes, never reported absent), tiles that are completely there must come back exact, and re-writing the archive must be Err.",
     );
     ctx.rec.assume("streams are the in-memory model harness/src/sio; a fault is an io::Error returned from read/write/seek/flush/close, permanently from index k on");
     let insts = instances(ctx);
@@ -506,6 +625,10 @@ pub fn run(ctx: &Ctx) {
             json!({"inst": preps[idx].0, "k": k, "n": preps[idx].1.out_len, "fault": "fixed-size sink of k bytes"})
         },
     );
+    // third pass: the source simply ends (no error value from the stream itself) inside the tile data
+    run_proptest(ctx, "source-ends-early", PtCfg::new(ctx.lanes, ctx.tier.pick(150, 4000)), || ends_early_strategy(ctx.tier.pick(300_000, 3 << 20)), check_ends_early);
+    ctx.rec.floor("source-ends-early/opened", 20);
+    ctx.rec.floor("source-ends-early/inside-tile>64KiB", 20);
     ctx.rec.floor("sink-full-zero-write", 20);
     for c in ["scenario-header", "scenario-directory", "scenario-read_directories", "scenario-write_directories", "scenario-open", "scenario-get_tile", "scenario-to_writer", "async", "sync", "internal-brotli", "internal-gzip", "internal-zstd", "internal-none"] {
         ctx.rec.floor(c, 20);
@@ -524,6 +647,7 @@ pub fn replay(sub: &str, case: &Value) -> Option<CaseResult> {
             let k = case.get("k")?.as_u64()?;
             Some(prepare(&inst).and_then(|p| check_zero_write(&inst, &p, k)))
         }
+        "source-ends-early" => Some(check_ends_early(&super::de(case)?)),
         "fault-free-baseline" => {
             let inst: Inst = super::de(case)?;
             Some(prepare(&inst).map(|_| Meta::new(false)))
